@@ -97,17 +97,24 @@ theorem spans_direct (ps : Pixels) (hs : RowSorted ps) (offs : List Nat) (n : Na
     rw [inBox_iff]
     omega
   · rename_i hne
+    simp only [Bool.and_eq_true, decide_eq_true_eq] at hv
+    obtain ⟨⟨ha, hoffa⟩, hv⟩ := hv
     split at hv
     · rename_i e hch
       simp only [Bool.and_eq_true, decide_eq_true_eq] at hv
       obtain ⟨he, hoffs⟩ := hv
-      have hie := spansChain_le spans b.i0 e hch
-      rw [chain_direct ps hs offs n ho b.j0 b.j1 spans b.i0 e hch (by omega)]
+      have hie := spansChain_le spans (spansStart b.i0 spans) e hch
+      rw [chain_direct ps hs offs n ho b.j0 b.j1 spans (spansStart b.i0 spans) e hch (by omega)]
       have hoff : off ps e = off ps b.i1 := by
         rw [← ho e (by omega), ← ho b.i1 hb]; exact hoffs
+      have hoff0 : off ps b.i0 = off ps (spansStart b.i0 spans) := by
+        rw [← ho b.i0 (by omega), ← ho (spansStart b.i0 spans) (by omega)]; exact hoffa
       have htail := empty_tail ps hs he hoff
+      have hhead := empty_tail ps hs ha hoff0
       have hsplit := filter_rows_append ps hs hie he
       rw [htail, List.append_nil] at hsplit
+      have hsplit0 := filter_rows_append ps hs ha (Nat.le_trans hie he)
+      rw [hhead, List.nil_append] at hsplit0
       have e1 : ∀ (A : Px → Bool), ps.filter (fun p => A p && inCols b.j0 b.j1 p)
           = (ps.filter A).filter (inCols b.j0 b.j1) := by
         intro A
@@ -115,7 +122,7 @@ theorem spans_direct (ps : Pixels) (hs : RowSorted ps) (offs : List Nat) (n : Na
         apply List.filter_congr
         intro p _
         rw [Bool.and_comm]
-      rw [e1, hsplit, ← e1]
+      rw [e1, hsplit, hsplit0, ← e1]
       apply List.filter_congr
       intro p _
       rw [inBox_eq]
@@ -165,7 +172,10 @@ theorem rowSpans_valid (offs : List Nat) (b : Box) : validSpans offs b (rowSpans
   split
   · simp
   · rename_i h
-    rw [rowSpans_chain]
+    have hk : b.i1 - b.i0 = (b.i1 - b.i0 - 1) + 1 := by omega
+    have hstart : spansStart b.i0 ((List.range' b.i0 (b.i1 - b.i0)).map fun i => (i, i + 1)) = b.i0 := by
+      rw [hk, List.range'_succ, List.map_cons]; rfl
+    rw [hstart, rowSpans_chain]
     have : b.i0 + (b.i1 - b.i0) = b.i1 := by omega
     simp [this]
 
